@@ -51,9 +51,10 @@ W == <<"W">>
 C(s) == <<"c", s>>
 
 Pick(S, one) == IF Small THEN {one} ELSE S
-Names  == Pick({"a", "b1", "x_y"}, "a")
-MNames == Pick({"m", "mac2"}, "m")
-Words  == Pick({"abc", "x1", "q"}, "abc")
+\* (names longer than the longest keyword, 14 characters for macro keywords, take a separate path in the lexer)
+Names  == Pick({"a", "b1", "x_y", "a_name_of_thirty_two_characters_", "corresponding_x"}, "a")
+MNames == Pick({"m", "mac2", "number_of_observations", "abcdefghijklmno", "abcdefghijklmn"}, "m")
+Words  == Pick({"abc", "x1", "q", "supercalifragilistic"}, "abc")
 Ints   == Pick({"0", "7", "42"}, "7")
 
 WsAlts  == IF Small THEN {"", " /*c*/ "} ELSE {"", " ", "\n", "/*c*/", " /*c*/ "}
